@@ -734,6 +734,42 @@ theorem writeSubstring_unconditional_flag_breaks_nf :
   simp only [NF]
   decide
 
+/-! ## unistring.Scan: the two-pass mechanism equals the one-pass specification -/
+
+theorem fillUnits_eq_utf16 : ∀ rs : List Nat, fillUnits rs = utf16 rs
+  | [] => rfl
+  | r :: rs => by
+    rw [utf16_cons, fillUnits, fillUnits_eq_utf16 rs]
+    simp [utf16One, scanFillTest]
+
+theorem countUnits_eq_length : ∀ rs : List Nat, countUnits rs = (utf16 rs).length
+  | [] => rfl
+  | r :: rs => by
+    rw [utf16_cons, countUnits, countUnits_eq_length rs, List.length_append]
+    by_cases h : r ≤ 0xFFFF
+    · have : ¬ r > 0xFFFF := by omega
+      simp [utf16One, scanCountTest, h, this]
+    · have : r > 0xFFFF := by omega
+      simp [utf16One, scanCountTest, h, this]
+
+/-- the buffer allocated by pass 1 has exactly 1 (BOM) + #units elements: `scanSize` counts the units -/
+theorem scanSize_eq_length (s : List UInt8) : scanSize s = (utf16 (decode s)).length := by
+  rw [utf16_decode_takeWhile s, List.length_append, List.length_map, scanSize, countUnits_eq_length]
+
+/-- scan_units: what the two passes of unistring.Scan return is the leniently decoded unit sequence, no more, no less -/
+theorem scanTwoPass_eq_scan (s : List UInt8) : scanTwoPass s = scan s := by
+  unfold scanTwoPass scan
+  split
+  · rfl
+  · rw [fillUnits_eq_utf16, scanSize_eq_length]
+    simp
+
+/-- regression lemma for the seeded off-by-one (`chr >= 0xFFFF` in the counting pass): counting U+FFFF as two units
+makes the buffer one longer than the units written, i.e. a trailing 0x0000 unit. -/
+theorem scan_count_geq_prefix_witness :
+    (if (0xFFFF : Nat) ≥ 0xFFFF then 2 else 1) + countUnits [] ≠ (utf16 [0xFFFF]).length := by
+  decide
+
 /-! ## concatStrings (template literals) -/
 
 theorem concatStrings_units (l : List Str) : units (concatStrings l) = l.flatMap units := by
